@@ -12,15 +12,31 @@ fn doc(digits: &[u8], variant: u64) -> String {
     for (i, d) in digits.iter().enumerate() {
         let t = (d / 2) as usize;
         let smooth = d % 2 == 1;
-        let _ = write!(s, "<point x=\"{}\" y=\"{}\"", i as i64 + 1, -2 * (i as i64) - 1);
+        // XML attribute order is insignificant: the variant picks a permutation per point
+        let mut attrs: Vec<String> = vec![
+            format!("x=\"{}\"", i as i64 + 1),
+            format!("y=\"{}\"", -2 * (i as i64) - 1),
+        ];
         // an off-curve may be spelled with or without the type attribute
         if t != 2 || (variant >> (i % 60)) & 1 == 1 {
-            let _ = write!(s, " type=\"{}\"", TYPES[t]);
+            attrs.push(format!("type=\"{}\"", TYPES[t]));
         }
         if smooth {
-            s.push_str(" smooth=\"yes\"");
+            attrs.push("smooth=\"yes\"".to_string());
         } else if (variant >> ((i + 7) % 60)) & 1 == 1 {
-            s.push_str(" smooth=\"no\"");
+            attrs.push("smooth=\"no\"".to_string());
+        }
+        if variant != 0 && variant != u64::MAX {
+            let mut r = Rng::new(variant ^ (i as u64).wrapping_mul(0x9E37_79B9));
+            for k in (1..attrs.len()).rev() {
+                let j = r.below(k as u64 + 1) as usize;
+                attrs.swap(k, j);
+            }
+        }
+        s.push_str("<point");
+        for a in &attrs {
+            s.push(' ');
+            s.push_str(a);
         }
         s.push_str("/>\n");
     }
@@ -28,9 +44,23 @@ fn doc(digits: &[u8], variant: u64) -> String {
     s
 }
 
+/// 'A': canonical and permuted rendering of the same sequence got different verdicts.
 /// verdict digit: 0 accepted and returned unchanged; 1..5 builder errors; 7 accepted but the
 /// returned contour differs from the input; 8 other error; 9 panic
 pub fn verdict(digits: &[u8], variant: u64) -> char {
+    let a = verdict1(digits, 0);
+    if variant == 0 {
+        return a;
+    }
+    let b = verdict1(digits, variant);
+    if a == b {
+        a
+    } else {
+        'A' // the verdict depends on attribute order / spelling, not on the sequence
+    }
+}
+
+fn verdict1(digits: &[u8], variant: u64) -> char {
     let d = doc(digits, variant);
     let r = catch(|| Glyph::parse_raw(d.as_bytes()));
     match r {
@@ -139,7 +169,7 @@ pub fn main(a: &Args) {
                 x /= 10;
             }
             let v = verdict(&digits, rng.next());
-            hist[v.to_digit(10).unwrap() as usize] += 1;
+            hist[v.to_digit(16).unwrap().min(9) as usize] += 1;
             if v == '0' {
                 accepted += 1;
             }
@@ -162,7 +192,7 @@ pub fn main(a: &Args) {
             gen_mostly_legal(&mut rng, len)
         };
         let v = verdict(&seq, rng.next());
-        hist[v.to_digit(10).unwrap() as usize] += 1;
+        hist[v.to_digit(16).unwrap().min(9) as usize] += 1;
         if v == '0' {
             rand_acc += 1;
         }
